@@ -83,9 +83,9 @@ def logLarge (target base est : Nat) : Except PanicKind (Nat × Nat) :=
   else .ok (logUpLoop target base 0 (bitLen target + 1) est estPow)
 
 /-- `TypedReprRef::log(self, base)`; `estF` supplies the first guess of the three `log_*` helpers.
-    `fixed = true`: a zero target panics with `LogInvalid` on every path (what the documentation
-    says); `fixed = false` mirrors the code, where the power-of-two shortcuts compute
-    `bit_len() − 1` on zero (overflow) and a multi-word base returns 0. -/
+    `fixed = true` mirrors the current code: a zero target panics with `LogInvalid` on every path
+    (since /repo f6db5f8); `fixed = false` is the code before, where the power-of-two shortcuts computed
+    `bit_len() − 1` on zero (overflow) and a multi-word base returned 0 (regression theorem). -/
 def logRepr (W : Nat) (fixed : Bool) (estF : Nat → Nat → Nat) (x base : Nat) : Except PanicKind (Nat × Nat) :=
   if fixed ∧ x = 0 ∧ base ≥ 2 then .error .logInvalid
   else if base < 2 ^ (2 * W) then
